@@ -132,19 +132,19 @@ Aged(e) ==
 
 Find(i, k) == {e \in cache[i] : e.key = k /\ now < e.cacheExp}
 
-Miss   == [res |-> "miss",   owner |-> NoQ, id |-> 0, ttls |-> <<>>, cont |-> "orig", idok |-> TRUE]
-Bypass == [res |-> "bypass", owner |-> NoQ, id |-> 0, ttls |-> <<>>, cont |-> "orig", idok |-> TRUE]
-Ack(s) == [res |-> s,        owner |-> NoQ, id |-> 0, ttls |-> <<>>, cont |-> "orig", idok |-> TRUE]
+Miss   == [res |-> "miss",   owner |-> NoQ, id |-> 0, ttls |-> <<>>, cont |-> "orig", idok |-> TRUE, i |-> 0]
+Bypass == [res |-> "bypass", owner |-> NoQ, id |-> 0, ttls |-> <<>>, cont |-> "orig", idok |-> TRUE, i |-> 0]
+Ack(s) == [res |-> s,        owner |-> NoQ, id |-> 0, ttls |-> <<>>, cont |-> "orig", idok |-> TRUE, i |-> 0]
 
 \* what a lookup of key k on instance i serves right now
 View(i, k) ==
     IF Find(i, k) = {} THEN Miss
     ELSE LET e == CHOOSE e \in Find(i, k) : TRUE IN
          IF now < e.msgExp
-         THEN [res |-> "hit", owner |-> e.owner, id |-> e.id, ttls |-> Aged(e), cont |-> e.cont, idok |-> Alias # "id"]
+         THEN [res |-> "hit", owner |-> e.owner, id |-> e.id, ttls |-> Aged(e), cont |-> e.cont, idok |-> Alias # "id", i |-> i]
          ELSE IF lazy > 0
          THEN [res |-> "stale", owner |-> e.owner, id |-> e.id,
-               ttls |-> [j \in DOMAIN e.r.ttls |-> StaleTTL], cont |-> e.cont, idok |-> TRUE]
+               ttls |-> [j \in DOMAIN e.r.ttls |-> StaleTTL], cont |-> e.cont, idok |-> TRUE, i |-> i]
          ELSE Miss
 
 Refreshing(i, k) == \E f \in inflight : f.i = i /\ f.key = k
@@ -187,8 +187,9 @@ RefreshEnd(f, r) ==
 Tick(d) ==
     /\ "tick" \in OpKinds /\ now + d <= MaxNow
     /\ now' = now + d
+    /\ obs' = Ack("tick")
     /\ H([a |-> "Tick", d |-> d])
-    /\ UNCHANGED <<lazy, cache, serial, inflight, handles, dump, dumpOf, mirror, obs, lastq, nops>>
+    /\ UNCHANGED <<lazy, cache, serial, inflight, handles, dump, dumpOf, mirror, lastq, nops>>
 
 ------------------------------------------------------------------------------
 \* dump / load (C19)
@@ -203,7 +204,7 @@ Dump(i) ==
     /\ dump' = {Dumped(e) : e \in {x \in cache[i] : now < x.cacheExp}}
     /\ dumpOf' = i
     /\ obs' = Ack("dumped")
-    /\ H([a |-> "Dump", i |-> i, now |-> now])
+    /\ H([a |-> "Dump", i |-> i, now |-> now, ec |-> [x \in 1..Cardinality(Insts) |-> cache[x]]])
     /\ UNCHANGED <<lazy, now, cache, serial, inflight, handles, mirror, lastq>>
 
 LiveOf(S) == {e \in S : now < e.cacheExp}
@@ -281,7 +282,7 @@ BypassRule == (lastq.k # "std") => ~Served
 \* C05: TTLs of a fresh hit = max(1, ttl - whole seconds since stored); stale = StaleTTL
 TTLRule ==
     \A i \in Insts : \A e \in cache[i] :
-        (obs.res = "hit" /\ obs.id = e.id /\ SameQuestion(e.owner, lastq) /\ e.key = KeyOf(lastq)) =>
+        (obs.res = "hit" /\ obs.i = i /\ obs.id = e.id /\ SameQuestion(e.owner, lastq) /\ e.key = KeyOf(lastq)) =>
             \A j \in DOMAIN obs.ttls :
                 /\ j \in DOMAIN e.r.ttls
                 /\ obs.ttls[j] = Max2(1, e.r.ttls[j] - (now - e.stored))
@@ -297,7 +298,7 @@ AdmissionRule ==
 \* ... and nothing is served fresh past its bound, or stale without lazy mode / past the lazy window
 NeverServedAfterExpiry ==
     \A i \in Insts : \A e \in cache[i] :
-        (Served /\ obs.id = e.id /\ e.key = KeyOf(lastq) /\ e.stored # Epoch) =>
+        (Served /\ obs.i = i /\ obs.id = e.id /\ e.key = KeyOf(lastq) /\ e.stored # Epoch) =>
             /\ obs.res = "hit" => now - e.stored < MsgBound(e.r)
             /\ obs.res = "stale" => (lazy > 0 /\ now - e.stored < CacheBound(e.r, lazy))
 
@@ -311,7 +312,7 @@ HitId == Served => obs.idok
 \* C19: after an intact dump/load into an empty instance both serve the same, now and later
 Keys(S) == {e.key : e \in S}
 RestartTransparent ==
-    mirror # <<>> => \A k \in Keys(cache[mirror[1]]) \cup Keys(cache[mirror[2]]) : View(mirror[1], k) = View(mirror[2], k)
+    mirror # <<>> => \A k \in Keys(cache[mirror[1]]) \cup Keys(cache[mirror[2]]) : [View(mirror[1], k) EXCEPT !.i = 0] = [View(mirror[2], k) EXCEPT !.i = 0]
 
 TypeOK ==
     /\ now \in 0..MaxNow /\ nops \in 0..MaxOps
